@@ -121,6 +121,17 @@ def units_for(chk, F):
                 ptxt = H.pat_str(e["cond"]["pat"]).replace(" ", "")
                 ok_base = ptxt == "Option::Some((dim,1))" and H.expr_str(e["cond"]["init"]) == "val.unit.as_single()" and \
                     any(c is outside[0] for c in H.method_calls(e["then"], "push"))
+    # ... and only a *registered* base unit is the base unit itself: `'inch'` (a quoted name) is a dimension of its own
+    registered = False
+    if len(outside) == 1:
+        for n in hir_walk(arm["body"]):
+            if n.get("k") == "If" and n["cond"].get("k") == "MethodCall" and n["cond"]["name"] == "contains" and \
+                    H.expr_str(n["cond"]["recv"]).endswith("registry.base_units") and any(c is outside[0] for c in H.method_calls(n["then"], "push")):
+                registered = True
+    chk.decide(registered or not outside, "units-for-filter", FK, "base-unit-is-registered", where,
+               "the dimension's own name is listed only when it is a registered base unit",
+               "the name of a one-factor dimensionality is listed without asking whether it is a base unit at all: `units for 'inch'` lists the "
+               "unit inch (a length) for the ad-hoc dimension 'inch', `units for 'core'` a unit that does not exist")
     chk.decide(ok_base or not outside, "units-for-filter", FK, "base-unit-push", where,
                "the base unit itself is appended only when X is that base unit to the power one",
                "a name is appended to the listing outside the dimensionality filter without requiring exponent 1 (%d extra push sites)" % len(outside))
